@@ -67,12 +67,21 @@ class E2ECheck:
     def mix(self, tier):
         if self.pid == "C07":
             # cond_empty: one branch of the conditional is a bare edge to the join
-            cond = ["cond", "cond_nested", "multi_cond", "multi_cond", "cond_dag", "cond_empty", "cond_empty"]
+            cond = ["cond", "cond_nested", "multi_cond", "multi_cond", "multi_cond", "cond_dag", "cond_empty", "cond_empty", "cond_open"]
             return BASE_MIX + [
                 ("greedy", {"shapes": cond}, 0.2),
                 ("greedy", {"shapes": cond, "flags": {"resolve_conditionals_at_submission": True}}, 0.25),
                 ("planner", {"shapes": cond, "max_nodes": 8, "flags": {"resolve_conditionals_at_submission": True}}, 0.05),
+                # zero-runtime (no-op) branch tasks: the join's placement can fire at the very instant the branch resolves
+                ("greedy", {"shapes": cond, "zero_runtime": True, "scheduler_choices": ["EDF", "EDF", "LSF"]}, 0.3),
             ]
+        if self.pid == "C02":
+            # joins of conditionals under policies that plan ahead (the join is scheduled before it is released), incl. the
+            # conditional that is wired straight to its join
+            return BASE_MIX + [("planner", {"shapes": ["cond_empty", "cond", "cond_empty"], "max_nodes": 6,
+                                            "flags": {"scheduler_lookahead": 20}}, 0.08),
+                               ("planner", {"shapes": ["cond_empty", "cond"], "max_nodes": 6, "flags": {"release_taskgraphs": True},
+                                            "scheduler_choices": ["ILP", "TetriSched_Gurobi"]}, 0.06)]
         if self.pid == "C05":
             # loop timeouts that strike mid-run (running / scheduled / unreleased work at the timeout)
             return BASE_MIX + [("greedy", {"tight_timeout": True, "frequencies": [-1, 1, 3, 10, 25]}, 0.15),
